@@ -81,7 +81,9 @@ func c11scenario(rep *vh.Report, seed uint64, idx int) {
 	if v1node {
 		ver = gomavlib.V1
 	}
-	s.node = &gomavlib.Node{Endpoints: eps, Dialect: testDialect, OutVersion: ver, OutSystemID: 42, OutComponentID: 7, HeartbeatDisable: true}
+	withSR := r.Chance(1, 2)
+	s.node = &gomavlib.Node{Endpoints: eps, Dialect: testDialect, OutVersion: ver, OutSystemID: 42, OutComponentID: 7, HeartbeatDisable: true,
+		StreamRequestEnable: withSR}
 	if err := s.node.Initialize(); err != nil {
 		rep.HarnessError(err.Error())
 		return
@@ -144,6 +146,11 @@ func c11scenario(rep *vh.Report, seed uint64, idx int) {
 			defer inWG.Done()
 			for i := 0; atomic.LoadInt32(&stopIn) == 0; i++ {
 				tr.Feed(uidFrame(uint64(0xAA)<<56|uint64(ti)<<32|uint64(i), byte(i), 9, false, nil, 0))
+				if withSR && i%60 == 30 {
+					// an ArduPilot heartbeat from a new sender: the node answers with 7 requests on this channel, written
+					// through the same queue as everything else (7 of the 16 slots that flow control leaves free)
+					tr.Feed(hbFrame(byte(1+i/60%250), byte(1+ti), 3, 0))
+				}
 				time.Sleep(time.Duration(100+ti*37) * time.Microsecond)
 			}
 		}(ti, tr)
@@ -169,6 +176,7 @@ func c11scenario(rep *vh.Report, seed uint64, idx int) {
 		go func(g int) {
 			defer wg.Done()
 			per := nOps / G
+			reuseUid, reuseLow := &MessageVfUid{}, &MessageVfLow{} // the same struct values are written again and again with new contents
 			for i := 0; i < per; i++ {
 				uid := c11uid(g, i)
 				op := []string{"MsgAll", "MsgTo", "MsgExcept", "FrameAll", "FrameTo", "FrameExcept"}[gr.Intn(6)]
@@ -222,9 +230,11 @@ func c11scenario(rep *vh.Report, seed uint64, idx int) {
 					c.Target = -1
 				}
 				var fr frame.Frame
-				var msg message.Message = &MessageVfUid{Uid: uid, Kind: 2, Pad: [3]uint8{9, 9, 9}}
+				*reuseUid = MessageVfUid{Uid: uid, Kind: 2, Pad: [3]uint8{9, 9, 9}}
+				var msg message.Message = reuseUid
 				if v1node {
-					msg = &MessageVfLow{Uid: uid, Kind: byte(uid & 1 * 2), Ext: 5} // a v1 link cannot carry id 5000
+					*reuseLow = MessageVfLow{Uid: uid, Kind: byte(uid & 1 * 2), Ext: 5} // a v1 link cannot carry id 5000
+					msg = reuseLow
 				}
 				if op[0] == 'F' {
 					c.Frame = true
@@ -381,6 +391,10 @@ func c11scenario(rep *vh.Report, seed uint64, idx int) {
 		count := map[uint64]int{}
 		lastOfG := map[int]int{}
 		for fi, f := range frames {
+			if withSR && f.MsgID == 66 {
+				rep.Count("stream_requests_on_wire", 1)
+				continue
+			}
 			uid, ok := uidOfWire(f)
 			if !ok || uid>>56 != 0xC1 {
 				rep.Violation("what=leak:unknown ep=custom", "a frame nobody wrote appeared on the wire", fmt.Sprintf("%+v", f))
